@@ -51,6 +51,10 @@ HARNESSES = [
      "functions": ["walk::WalkTree::next", "walk::WalkTree::cancel_walk_tree"],
      "bounds": "next item: exhausted / directory / file / link / error; arbitrary previous is_dir; unwind 6",
      "stubs": WD_STUBS, "replay": "filter_stack+walk_errors+link_discard"},
+    {"name": "walk::verif_kani::walktree_cancel_history", "props": ["C13", "C20"], "tier": "quick",
+     "functions": ["walk::WalkTree::with_pivot_and_behavior", "walk::WalkTree::next", "walk::WalkTree::cancel_walk_tree"],
+     "bounds": "a history of two deliveries (directory / file / link each, walkdir depths 1-3 each) from a walk built by the real constructor; a discard after each or only after the second; unwind 6",
+     "stubs": WD_STUBS, "replay": "filter_stack+walk_errors+link_discard"},
     {"name": "walk::verif_kani::walk_error_from_walkdir_error", "props": ["C20"], "tier": "quick",
      "functions": ["<WalkError as From<walkdir::Error>>::from", "WalkError::path", "WalkError::depth"],
      "bounds": "Io without path / Io with path / Loop; arbitrary depth (full width); unwind 6",
